@@ -353,7 +353,7 @@ META = dict(
         "term equal; consistently permuting positions leaves it equal; a single query broadcast against batched keys equals the explicitly expanded query; "
         "multi-headed attention equals project / per-head single-head attention / concatenate / project, with a bias on exactly the projections for which one "
         "was requested."),
-    bounds=dict(quick="T=3 positions (T=2 for multi-head), batch 2, sizes 2, sequence dimension 0 and 1, dot/general/concat, 2 heads, the bias flags one at a time",
+    bounds=dict(quick="T=3 positions (T=2 for multi-head), batch 2, sizes 2, sequence dimension 0 and 1, dot/general/concat, 1-3 heads, the bias flags one at a time",
                 thorough="T=3, batch 2, sizes 2, both sequence dims, biases on/off, all 16 bias-flag combinations for multi-head"),
     assumptions=["softmax, tanh and symbolic-by-symbolic products in the scores are uninterpreted functions with functional consistency (the real functions are instances), except that for the convexity claim softmax is any weight vector >=0 summing to one that is zero where the score is -inf and the final weighted sum is real arithmetic", "reals instead of floats",
                  "at least one position kept per batch element (as the property states)"],
@@ -377,4 +377,6 @@ def tasks(tier):
     combos = [[False] * 4] + [[i == j for j in range(4)] for i in range(4)] + [[True] * 4] if q else [list(x) for x in itertools.product((False, True), repeat=4)]
     for biases in combos:
         ts.append(task(PROP, M_, "MultiHeadH", T=2, B=2, Q=2, Vs=2, H=2, biases=biases, time_limit=600))
+    for H, T in ((1, 2), (3, 2)) if q else ((1, 2), (1, 3), (3, 2), (3, 3)):   # a single head and an odd number of heads
+        ts.append(task(PROP, M_, "MultiHeadH", T=T, B=2, Q=2, Vs=2, H=H, biases=[False, True, False, True], time_limit=600))
     return ts
